@@ -62,6 +62,9 @@ def run_shard(spec):
         if ctx.cfg['arch_version'] >= 7:
             r.sctlr.u = 1
         r.dacr.value = rng.choice([0b001101, 0b001101, 0b111111, 0b000001])
+        if rng.random() < 0.15:
+            r.fcseidr.value = rng.choice([1, 2, 0x40]) << 25      # FCSE: VAs below 32 MB are relocated before the walk
+            desc['fcse_pid'] = r.fcseidr.value >> 25
         if ctx.prot == 'mmu-ld':
             # windows of the long-descriptor layout (vf/scen.py _program_mmu_ld)
             for n in range(13):
